@@ -12,7 +12,7 @@
 -/
 namespace PegVerif
 
-abbrev Sym := Nat
+notation "Sym" => Nat
 
 /-- `endSymbol` of `tree/peg.go.tmpl` (`t.EndSymbol = 0x110000` in `tree/peg.go`). -/
 def END : Sym := 0x110000
